@@ -4917,7 +4917,11 @@ yyreduce:
           {
             case OBJECT_TYPE_INTEGER:
               (yyval.expression).type = EXPRESSION_TYPE_INTEGER;
-              (yyval.expression).value.integer = (yyvsp[0].expression).value.object->value.i;
+              // The value is known only at scan time. The value the object
+              // has while compiling (the compile-time definition of an
+              // external variable) can be changed later, it must not be
+              // treated as a constant.
+              (yyval.expression).value.integer = YR_UNDEFINED;
               break;
             case OBJECT_TYPE_FLOAT:
               (yyval.expression).type = EXPRESSION_TYPE_FLOAT;
